@@ -5,4 +5,5 @@ CONSTANTS
   FullOps = "all"
   AllAtomsUpTo = 2
   DefaultFrom = 3
+  OpsFrom = 99
 INVARIANTS SpineOK FullOK Emit
